@@ -390,4 +390,5 @@ package raft
 //@   modifies l.log.gprev
 //@   props C15
 //@   ensures [C09.compact-after-all-followers] l.log.gprev != old(l.log.gprev) ==> forall(k, has(l.repls, k) ==> l.repls[k].status.removeLTE >= l.removeLTE)
+//@   ensures [C15+C09.leader-view-stays-valid] old(l.log.gprev <= l.removeLTE) ==> l.log.gprev <= l.removeLTE
 //@   loop 1 invariant forall(k, visited(k) ==> l.repls[k].status.removeLTE >= l.removeLTE) && subset(visitedset(), keys(l.repls))
